@@ -705,3 +705,56 @@ Proof.
   - unfold write_body. destruct (wr_run (wstate_init ds) evs) as [s2 ls] eqn:E. simpl.
     eapply wr_run_raw_ok; [apply wstate_init_decls | exact Hok | exact E].
 Qed.
+
+(* ========================================================================================== *)
+(* what does NOT hold                                                                          *)
+(* ========================================================================================== *)
+
+(* the change detection looks at the VALUE plane of undefined bits too: X (value 0) -> X (value 1)
+   writes a second, textually identical line *)
+Theorem write_only_on_visible_change_refuted_proof :
+  ~ (forall st news st2 ls i d old nw,
+       NoDup (st_ids st) ->
+       Forall2 (fun p v => length v = sg_width (fst p)) st news ->
+       commit st news = (st2, ls) ->
+       nth_error st i = Some (d, old) -> nth_error news i = Some nw -> length old = sg_width d ->
+       viewv nw = viewv old ->
+       filter (line_has_id (sg_id d)) ls = []).
+Proof.
+  intros H.
+  pose (d := {| sg_id := ident 0; sg_width := 1; sg_bvec := false; sg_name := "z"%string |}).
+  specialize (H [(d, [(false, false)])] [[(false, true)]] [(d, [(false, true)])] [LScalar BX (ident 0)] 0%nat d
+                [(false, false)] [(false, true)]).
+  assert (C : filter (line_has_id (sg_id d)) [LScalar BX (ident 0)] = []).
+  { apply H; try reflexivity.
+    - constructor; [intros []|constructor].
+    - repeat constructor. }
+  vm_compute in C. discriminate C.
+Qed.
+
+(* without "all later ticks are greater" the roundtrip fails: a second commit inside the same
+   picosecond replaces the first in the file *)
+Theorem vcd_roundtrip_same_tick_refuted_proof :
+  ~ (forall ds pre news post i d,
+       NoDup (map sg_id ds) ->
+       evs_ok ds (pre ++ EvCommit news :: post) ->
+       ticks_mono 0 (pre ++ EvCommit news :: post) ->
+       tick_first post ->
+       nth_error ds i = Some d ->
+       read_sig (write_body ds (pre ++ EvCommit news :: post)) (now_after 0 pre) d = viewv (nth i news [])).
+Proof.
+  intros H.
+  pose (ds := declare [(1%nat, false, "a"%string)]).
+  specialize (H ds [] [[(true, false)]] [EvTick (1 # 3000000000000); EvCommit [[(true, true)]]] 0%nat
+                (nth 0 ds {| sg_id := ""%string; sg_width := 0; sg_bvec := false; sg_name := ""%string |})).
+  assert (C : read_sig (write_body ds ([] ++ EvCommit [[(true, false)]] :: [EvTick (1 # 3000000000000); EvCommit [[(true, true)]]]))
+                (now_after 0 []) (nth 0 ds {| sg_id := ""%string; sg_width := 0; sg_bvec := false; sg_name := ""%string |})
+              = viewv (nth 0 [[(true, false)]] [])).
+  { apply H.
+    - apply declare_NoDup.
+    - repeat constructor.
+    - simpl. split; [vm_compute; discriminate | exact I].
+    - exact I.
+    - reflexivity. }
+  vm_compute in C. discriminate C.
+Qed.
